@@ -195,11 +195,22 @@ type indexInArrayMatcher struct {
 
 func (m *indexInArrayMatcher) Match(value client.NormalValue) (bool, error) {
 	for _, inVal := range m.inValues {
-		if inVal.Unwrap() == value.Unwrap() {
+		if areNormalValuesEqual(inVal, value) {
 			return m.isIn, nil
 		}
 	}
 	return !m.isIn, nil
+}
+
+// areNormalValuesEqual compares two values the way the equality matchers do: times by the
+// instant they denote (a time decoded from an index key is always in UTC, a filter value
+// keeps the offset it was written with), everything else by its Go value.
+func areNormalValuesEqual(a, b client.NormalValue) bool {
+	if aTime, ok := a.Unwrap().(time.Time); ok {
+		bTime, ok := b.Unwrap().(time.Time)
+		return ok && aTime.Equal(bTime)
+	}
+	return a.Unwrap() == b.Unwrap()
 }
 
 // checks if the index value satisfies the LIKE condition
